@@ -713,7 +713,31 @@ func (db *Default) removeDevice(ctx context.Context, id agd.DeviceID) {
 	db.mapsMu.Lock()
 	defer db.mapsMu.Unlock()
 
+	if db.currentDevice(id) != nil {
+		// A synchronization has attached the device again since the lookup
+		// that requested the removal.
+		return
+	}
+
 	delete(db.deviceIDToProfileID, id)
+}
+
+// currentDevice returns the device with the given ID if it is still attached
+// to an existing profile, and nil otherwise.  It is used by the removal
+// goroutines to recheck, under the write lock, that the data they were asked to
+// remove is still stale.  It assumes that db.mapsMu is locked.
+func (db *Default) currentDevice(id agd.DeviceID) (d *agd.Device) {
+	profID, ok := db.deviceIDToProfileID[id]
+	if !ok {
+		return nil
+	}
+
+	p, ok := db.profiles[profID]
+	if !ok || !slices.Contains(p.DeviceIDs, id) {
+		return nil
+	}
+
+	return db.devices[id]
 }
 
 // removeDedicatedIP removes the device link for the given dedicated IP address
@@ -723,6 +747,13 @@ func (db *Default) removeDedicatedIP(ctx context.Context, ip netip.Addr) {
 
 	db.mapsMu.Lock()
 	defer db.mapsMu.Unlock()
+
+	d := db.currentDevice(db.dedicatedIPToDeviceID[ip])
+	if d != nil && slices.Contains(d.DedicatedIPs, ip) {
+		// A synchronization has assigned the address anew since the lookup
+		// that requested the removal.
+		return
+	}
 
 	delete(db.dedicatedIPToDeviceID, ip)
 }
@@ -792,6 +823,13 @@ func (db *Default) removeHumanID(ctx context.Context, k humanIDKey) {
 	db.mapsMu.Lock()
 	defer db.mapsMu.Unlock()
 
+	d := db.currentDevice(db.humanIDToDeviceID[k])
+	if d != nil && d.HumanIDLower == k.lower && db.deviceIDToProfileID[d.ID] == k.profile {
+		// A synchronization has assigned the human ID anew since the lookup
+		// that requested the removal.
+		return
+	}
+
 	delete(db.humanIDToDeviceID, k)
 }
 
@@ -856,6 +894,13 @@ func (db *Default) removeLinkedIP(ctx context.Context, ip netip.Addr) {
 
 	db.mapsMu.Lock()
 	defer db.mapsMu.Unlock()
+
+	d := db.currentDevice(db.linkedIPToDeviceID[ip])
+	if d != nil && d.LinkedIP == ip {
+		// A synchronization has assigned the address anew since the lookup
+		// that requested the removal.
+		return
+	}
 
 	delete(db.linkedIPToDeviceID, ip)
 }
